@@ -2,7 +2,10 @@ module verif/harness
 
 go 1.20
 
-require github.com/mosaicnetworks/babble v0.0.0
+require (
+	github.com/mosaicnetworks/babble v0.0.0
+	github.com/sirupsen/logrus v1.2.0
+)
 
 require (
 	github.com/AndreasBriese/bbloom v0.0.0-20190306092124-e2d15f34fcf9 // indirect
@@ -29,7 +32,6 @@ require (
 	github.com/pion/turn/v2 v2.0.2 // indirect
 	github.com/pion/webrtc/v2 v2.2.0 // indirect
 	github.com/pkg/errors v0.9.1 // indirect
-	github.com/sirupsen/logrus v1.2.0 // indirect
 	github.com/ugorji/go/codec v1.1.7 // indirect
 	github.com/x-cray/logrus-prefixed-formatter v0.5.2 // indirect
 	golang.org/x/crypto v0.0.0-20200128174031-69ecbb4d6d5d // indirect
